@@ -325,7 +325,23 @@ def _ob_worker(task):
     idx, level, timeout_ms, seed, use_cvc5, cvc5_timeout_s = task
     eng, obs = _G["eng"], _G["obs"]
     ob = obs[idx]
-    _, r = _solve_one(eng, ob, idx, level, timeout_ms, seed, use_cvc5, cvc5_timeout_s)
+    full_h = (ob.meta or {}).get("full_hyps")
+    # a cited subset either closes quickly or not at all: short budget, no second solver
+    _, r = _solve_one(eng, ob, idx, level, (min(timeout_ms, 6000) if full_h is not None else timeout_ms), seed, (None if full_h is not None else use_cvc5), cvc5_timeout_s)
+    if full_h is not None and r["status"] != "unsat":
+        # proof by citation failed on the cited subset: that decides nothing; try all hypotheses
+        import copy
+
+        ob3 = copy.copy(ob)
+        ob3.hyps = list(full_h)
+        ob3.meta = {k: v for k, v in ob.meta.items() if k not in ("full_hyps", "cited")}
+        if hasattr(ob3, "_rels"):
+            del ob3._rels
+        _, r3 = _solve_one(eng, ob3, idx, level, timeout_ms, seed, use_cvc5, cvc5_timeout_s)
+        r3["time"] = r3.get("time", 0.0) + r.get("time", 0.0)
+        r3["log"] = list(r.get("log", [])) + [("cited-subset-insufficient:all-hypotheses", r3["status"], 0.0)] + list(r3.get("log", []))
+        r = r3
+        ob = ob3
     hidden = (ob.meta or {}).get("hidden_axioms")
     if hidden and r["status"] in ("sat", "sat-core"):
         # the model may only exist because opaque ghost definitions were hidden: decide again with them
